@@ -28,6 +28,8 @@ def register_digits(term, octs):
     _DIGITS[term.get_id()] = (term, list(octs))
     st = z3.simplify(term)
     _DIGITS[st.get_id()] = (st, list(octs))
+    sm = z3.simplify(term, som=True)          # canonical polynomial: (a*256 + b)*65536 + c  ==  a*2^24 + b*2^16 + c
+    _DIGITS[sm.get_id()] = (sm, list(octs))
 
 
 def digits_hint(term, width):
@@ -36,6 +38,10 @@ def digits_hint(term, width):
         st = z3.simplify(term)
         h = _DIGITS.get(st.get_id())
         term = st
+        if h is None:
+            sm = z3.simplify(term, som=True)
+            h = _DIGITS.get(sm.get_id())
+            term = sm
     if h is not None and h[0].eq(term) and len(h[1]) == width:
         return h[1]
     return None
